@@ -468,11 +468,32 @@ func runClient(tp *Tape, m *monitor) {
 		}
 		return reply
 	}
+	// the realm's change-password server (reference RFC 3244 server), and what a peer on the path makes of its answers
+	kp := refkdc.NewKPasswd(kdc)
+	kpMode := ""
+	net.Resp["10.0.0.1:464"] = func(proto, addr string, req []byte) []byte {
+		m.scan("wire", "bytes sent to the change-password server", req)
+		fr, err := rk.DecKpasswdRequest(req)
+		switch {
+		case kpMode == "reflect-fabricated-aprep" && err == nil:
+			fake := rk.EncAPRep(rk.EncryptedData{Etype: int32(tp.Etype), Cipher: core.NewRng(tp.RunSeed).Derive("fake-aprep").Bytes(60)})
+			return rk.EncKpasswdReply(fake, fr.Priv)
+		case kpMode == "reflect-genuine-aprep" && err == nil:
+			g := kp.Handle(req)
+			if len(g) > 6 {
+				if l := int(g[4])<<8 | int(g[5]); l > 0 && 6+l <= len(g) {
+					return rk.EncKpasswdReply(g[6:6+l], fr.Priv)
+				}
+			}
+			return g
+		}
+		return kp.Handle(req)
+	}
 	simnet.Install(net)
 	noaddr := false
 	et := gk.EtypeNames[tp.Etype]
 	cm := gk.ConfModel{DefaultRealm: "SIM.TEST", NoAddresses: &noaddr, TktEtypes: []string{et}, TGSEtypes: []string{et}, PreauthTypes: []int{tp.Etype},
-		Realms: map[string][]string{"SIM.TEST": {"10.0.0.1:88"}}, DomainRealm: map[string]string{".sim.test": "SIM.TEST"}}
+		Realms: map[string][]string{"SIM.TEST": {"10.0.0.1:88"}}, KPasswd: map[string][]string{"SIM.TEST": {"10.0.0.1:464"}}, DomainRealm: map[string]string{".sim.test": "SIM.TEST"}}
 	cfg, _, err := cm.Parse()
 	if err != nil {
 		m.res.Verdict, m.res.Harness = "harness-error", "krb5.conf: "+err.Error()
@@ -605,6 +626,41 @@ func runClient(tp *Tape, m *monitor) {
 				m.res.Evals++
 			}
 			armed = false
+			net.Beh = map[string]world.Behaviour{}
+			// the same user changes the password (RFC 3244) against the realm's change-password server:
+			// honest, refusing by policy, unreachable - and a peer on the path that hands the client its
+			// own KRB-PRIV back (which decrypts under the very subkey the client chose), behind an AP-REP it
+			// made up or behind the genuine one.  The new password is a secret like the old one.
+			const newPassword = "Nw4-hG8sVb2Kq6Tz0Xy3"
+			m.t.Add("password", "the new password", []byte(newPassword))
+			for _, mode := range []string{"reflect-fabricated-aprep", "reflect-genuine-aprep", "refused-by-policy", "unreachable", "honest"} {
+				kpMode = mode
+				kp.Result, kp.ResultText = 0, ""
+				net.Beh = map[string]world.Behaviour{}
+				switch mode {
+				case "refused-by-policy", "reflect-genuine-aprep":
+					// (the genuine AP-REP of the reflecting peer comes from a server that refuses the change,
+					// so that the account keeps its password for the modes that follow)
+					kp.Result, kp.ResultText = 4, "password does not meet the policy"
+				case "unreachable":
+					net.Beh["udp!10.0.0.1:464"] = world.Behaviour{Kind: "refuse"}
+					net.Beh["tcp!10.0.0.1:464"] = world.Behaviour{Kind: "close", Arg: 3}
+				}
+				cl2 := client.NewWithPassword("alice", "SIM.TEST", password, cfg, client.Logger(log.New(&logBuf, "", 0)))
+				var ce error
+				var ok bool
+				engine.Guard(func() { ok, ce = cl2.ChangePasswd(newPassword) })
+				learn()
+				m.scanErr("Client.ChangePasswd ("+mode+")", ce)
+				m.scan("log", "client logger, change password", logBuf.Bytes())
+				m.res.Probes["change-password-"+mode]++
+				if ok {
+					m.res.Probes["change-password-applied"]++
+				}
+				m.res.Evals++
+				cl2.Destroy()
+			}
+			kpMode = ""
 			net.Beh = map[string]world.Behaviour{}
 		}
 	})
